@@ -336,7 +336,10 @@ def r5(ctx):
     alloc = _call_nodes(g, "_allocate_job")
     sched = [n for n in g.nodes.values() if n.kind == "stmt" and isinstance(n.ast, ast.Assign)
              and unparse(n.ast.targets[0]).endswith(".scheduled") and unparse(n.ast.value) == "True"]
-    ctx.require(bool(alloc) and bool(sched), "C10.R5: allocation / scheduled flag not found")
+    ctx.require(bool(alloc), "C10.R5: allocation call not found in _process_target")
+    if not sched:
+        ctx.ob("R5", "`scheduled = True` follows the reservation", False, func=f, node=alloc[0].ast, instance="scheduled-after-alloc",
+               message="_process_target never sets `scheduled = True` after reserving: the sibling target tasks allocate the same job again")
     susp = g.suspension_nodes()
     for a in alloc:
         pth_susp = [s for s in susp if s in g.reach([a.id], avoid=[x.id for x in sched]) and any(x.id in g.reach([s]) for x in sched)]
